@@ -2853,6 +2853,8 @@ echs_evical_pull(ical_parser_t p[static 1U])
 		case METH_REQUEST:
 			i.v = INSVERB_SCHE;
 			i.t = make_task(ve);
+			/* the reply is going to quote the uid */
+			i.o = ve->t.oid;
 			break;
 		case METH_REPLY:
 			i.o = ve->t.oid;
